@@ -299,6 +299,9 @@ class IndexBackend(ArraySchemaBackend):
 
         error_handler = ErrorHandler(lazy)
 
+        if not inplace:
+            check_obj = check_obj.copy()
+
         if schema.coerce:
             try:
                 check_obj.index = schema.coerce_dtype(check_obj.index)
@@ -456,6 +459,9 @@ class MultiIndexBackend(DataFrameSchemaBackend):
             otherwise creates a copy of the data.
         :returns: validated DataFrame or Series.
         """
+        if not inplace:
+            check_obj = check_obj.copy()
+
         if schema.coerce:
             check_obj.index = self.__coerce_index(check_obj, schema, lazy)
 
